@@ -106,6 +106,40 @@ def protected_texts(tree, out=None):
     return out
 
 
+# embedded code in math: its identifier must not run into what follows, and a semicolon keeps its role (code terminator when it
+# directly follows the code, row separator when a blank precedes it)
+CODE_DOCS = [
+    '/ : desc\n', '/ a: \n', '/ : \n', '- \n', '+ \n', '/ a:b\n', '-  a\n',
+    '$#x _a$\n', '$#x.y _z$\n', '$#x ^a$\n', '$#x a$\n', '$#x_a$\n', '$mat(a_#x ; 2)$\n', '$mat(1/#x; 2)$\n', '$mat(#x; 2)$\n', '$mat(#x ; 2)$\n', '$mat(1 + #x ; 2)$\n',
+    '$mat(a^#x ; 2)$\n', '$mat(a_#x; 2)$\n', '$mat(#f(1) ; 2)$\n', '$mat(#f(1); 2)$\n', '$f(#x, y)$\n', '$f(#x , y)$\n', '$#x;$\n', '$#x ;$\n', '$a/#x ; b$\n', '$sqrt(#x) _a$\n',
+    '$#x\'$\n', "$#x '$\n", '$mat(√#x ; 2)$\n', '$mat(a/b_#x ; 2)$\n',
+]
+
+
+def code_adjacency(tree):
+    """[(index of the leaf that ends embedded code, separated-by-blank?, text of the next non-blank leaf)] for embedded identifiers `#x` / `#x.y`"""
+    from .conserve import leaf_list
+    lv = leaf_list(tree)
+    out = []
+    i = 0
+    while i < len(lv):
+        if lv[i][0] == 'Hash' and i + 1 < len(lv) and lv[i + 1][0] == 'Ident':
+            j = i + 1
+            while j + 2 < len(lv) and lv[j + 1][0] == 'Dot' and lv[j + 2][0] == 'Ident':
+                j += 2
+            k = j + 1
+            blank = False
+            while k < len(lv) and lv[k][0] == 'Space':
+                blank = True
+                k += 1
+            if k < len(lv):
+                out.append((lv[j][1], blank, lv[k][0], lv[k][1]))
+            i = j + 1
+        else:
+            i += 1
+    return out
+
+
 def tree_of(S, src):
     with tempfile.NamedTemporaryFile('w', suffix='.typ', delete=False, encoding='utf-8') as f:
         f.write(src)
@@ -162,8 +196,11 @@ def explore(S, docs=None, want=('C01', 'C04', 'C05')):
 
         pairs = word_pairs(tree) if 'C08' in want else []
         prot = protected_texts(tree) if 'C07' in want else []
+        adj = code_adjacency(tree) if 'C01' in want else []
+        from .conserve import leaf_list as _ll
+        markers = {t_ for k_, t_ in _ll(tree) if k_ in ('ListMarker', 'EnumMarker', 'TermMarker')} if 'C01' in want and not src.startswith('$') else set()
 
-        def body(ctx, tree=tree, src=src, pairs=pairs, prot=prot):
+        def body(ctx, tree=tree, src=src, pairs=pairs, prot=prot, adj=adj):
             m = S.machine(core, STD, ctx)
             root = build(ctx, tree, kt, [0], concrete_ws='C07' in want)
             attrs = m.call_fn(f_attr, [root])
@@ -223,6 +260,45 @@ def explore(S, docs=None, want=('C01', 'C04', 'C05')):
                 info = lambda mdl, mode=mode, at=at, got=got: dict(describe(mdl), layout=mode, atoms=show_atoms(at)[:300], expected=expected, got=got)
                 if 'C01' in want:
                     ctx.must_hold(got == expected, 'C01:document-tokens-added-dropped-or-reordered', info)
+                if 'C01' in want and adj:
+                    flat = []
+                    for a in at:
+                        if a[0] == 't':
+                            t_ = a[1].concrete() if a[1].is_concrete() else ' ' * len(a[1])
+                            if t_ != '':
+                                flat.append(t_)
+                        elif a == ('nl',):
+                            flat.append('\n')
+                    text = ''.join(flat)
+                    pos = 0
+                    for name, blank, nkind, ntext in adj:
+                        q = text.find('#', pos)
+                        # locate `name` of this occurrence (the last identifier of the embedded code) and what follows it
+                        q = text.find(name, q if q >= 0 else pos)
+                        if q < 0:
+                            continue
+                        after = text[q + len(name):]
+                        pos = q + len(name)
+                        sep = len(after) - len(after.lstrip(' \n'))
+                        nxt = after[sep:sep + 1]
+                        if nkind == 'Semicolon':
+                            # directly behind the code a semicolon ends the code; behind a blank it separates rows
+                            ok = (sep > 0) == blank if nxt == ';' else True
+                            ctx.must_hold(ok, 'C01:semicolon-behind-embedded-code-changes-role',
+                                          lambda mdl, mode=mode, text=text: dict(describe(mdl), layout=mode, output=text, code=name, blank_in_source=blank))
+                        elif blank and (ntext[:1] == '_' or ntext[:1].isalnum()):
+                            ctx.must_hold(sep > 0, 'C01:embedded-identifier-runs-into-following-token',
+                                          lambda mdl, mode=mode, text=text: dict(describe(mdl), layout=mode, output=text, code=name, next=ntext))
+                        ctx.witness('embedded code adjacency')
+                if 'C01' in want and markers:
+                    # a list / enum / term marker is followed by a blank (or the end): `/: d` is text, not a term item
+                    ok = True
+                    for j, a in enumerate(at):
+                        if a[0] == 't' and a[1].is_concrete() and a[1].concrete() in markers:
+                            nxt = next((b for b in at[j + 1:] if not (b[0] == 't' and b[1].is_concrete() and b[1].concrete() == '')), None)
+                            if not (nxt is None or nxt == ('nl',) or (nxt[0] == 't' and (not nxt[1].is_concrete() or nxt[1].concrete()[:1] == ' '))):
+                                ok = False
+                    ctx.must_hold(ok, 'C01:item-marker-glued-to-what-follows', info)
                 if 'C08' in want:
                     # prose: two words separated by one whitespace token come out separated by exactly one blank, or by exactly one
                     # line break when the token holds one (its characters are symbolic within that class)
@@ -268,6 +344,15 @@ def confirm(S, info):
         if r[0] != 'ok':
             continue
         out = unhexs(r[1])
+        if info.get('code'):
+            err2, toks2 = leaves(S, out)
+            a = [x for x in toks if x[0] not in ('Space',)]
+            b = [x for x in (toks2 or []) if x[0] not in ('Space',)]
+            ka = S.driver.call('kindseq', hexs(src)) if False else None
+            if err2 or [k for k, t_ in a] != [k for k, t_ in b] or [t_ for k, t_ in a] != [t_ for k, t_ in b] or shape_of_src(S, src) != shape_of_src(S, out):
+                return dict(api='Typstyle::format_content', source=src, width=w, tab=t, output=out,
+                            what='embedded code changes its extent: %s -> %s (tree %s -> %s)' % (show(src), show(out), shape_of_src(S, src), shape_of_src(S, out)))
+            continue
         if info.get('protected'):
             if info['protected'] not in out:
                 return dict(api='Typstyle::format_content', source=src, width=w, tab=t, output=out,
@@ -290,12 +375,30 @@ def confirm(S, info):
             return dict(api='Typstyle::format_content', source=src, width=w, tab=t, output=out, what='well-formed %s is formatted to text with syntax errors: %s' % (show(src), show(out)))
         if strip_layout(out) != strip_layout(src):
             return dict(api='Typstyle::format_content', source=src, width=w, tab=t, output=out, what='tokens changed: %s -> %s' % (show(src), show(out)))
+        if 'item-marker' in info.get('label', '') and shape_of_src(S, src) != shape_of_src(S, out):
+            return dict(api='Typstyle::format_content', source=src, width=w, tab=t, output=out,
+                        what='%s is formatted to %s, which is no longer the same list / term item (tree %s -> %s)' % (show(src), show(out), shape_of_src(S, src), shape_of_src(S, out)))
         a = [x for x in significant(toks) if x[0] in ('Linebreak', 'Escape', 'LineComment', 'BlockComment')]
         b = [x for x in significant(toks2) if x[0] in ('Linebreak', 'Escape', 'LineComment', 'BlockComment')]
         if a != b:
             return dict(api='Typstyle::format_content', source=src, width=w, tab=t, output=out,
                         what='%s is formatted to %s: line-break / escape / comment tokens changed (%r -> %r)' % (show(src), show(out), a, b))
     return None
+
+
+def shape_of_src(S, text):
+    """node structure of a source without whitespace tokens (native parse)"""
+    from .conserve import shape_of
+    t = tree_of(S, text)
+    if t is None:
+        return None
+
+    def strip(tr):
+        k, x = tr
+        if isinstance(x, list):
+            return (k, [strip(c) for c in x if c[0] != 'Space'])
+        return (k, x)
+    return shape_of(strip(t))
 
 
 def site_of(src):
@@ -325,7 +428,7 @@ def report(S, prop, found):
             if info['source'] in seen:
                 continue
             seen.add(info['source'])
-            w = confirm(S, info)
+            w = confirm(S, dict(info, label=lab))
             if w:
                 hit = (info, w)
                 break
